@@ -772,3 +772,95 @@ def witness_timeout(dbs):
     diverges = expected_first and k2[:len(J)] != J[:len(k2)]
     model_predicts = (r2["hist"][:1] == [prog.B] and K2[:3] == [prog.A, prog.B, prog.B] and r2["warnings"] >= 1)
     return expected_first, diverges, model_predicts, detail
+
+
+# ------------------------------------------------------------------ the real control loop around the real adapter
+# The model's `enter`/`finish` (and the driver above) stand for what _ControlLoopRunner.run does around
+# wait_for_next_task.  Here the REAL control loop runs real generated workflows (suites/engine.py) with an internal
+# adapter whose wait_for_next_task / journal methods are the real InternalDBOSAdapter's (everything DBOS-specific —
+# recv/send/streams/durable time — stays the asyncio adapter's), and the calling convention the model assumes is
+# checked on every call: the hypotheses `prog_distinct` and the loop bookkeeping.
+def engine_contract(seed, dbs):
+    from suites import engine as E, engine_specs as S
+    from workflows.plugins.basic import BasicRuntime, InternalAsyncioAdapter
+
+    calls = []      # (running keys, pending keys, completed key | None)
+    path = dbs.fresh()
+    real_wfnt = rt.InternalDBOSAdapter.wait_for_next_task
+
+    class Hybrid(InternalAsyncioAdapter):
+        _get_or_create_journal = rt.InternalDBOSAdapter._get_or_create_journal
+        _purge_orphaned_operations = rt.InternalDBOSAdapter._purge_orphaned_operations
+        _resolve_pool = rt.InternalDBOSAdapter._resolve_pool
+
+        def __init__(self, queues):
+            super().__init__(queues)
+            self._run_id = RUNS[0]
+            self._pool_provider = None
+            self._resolved_pool = None
+            self._schema = None
+            self._db_path = path
+            self._journal_table_name = "workflow_journal"
+            self._journal = None
+            self._orphan_purge_done = False
+
+        async def wait_for_next_task(self, running, pending, timeout=None):
+            rk, pk = [nt.key for nt in running], [p.key for p in pending]
+            res = await real_wfnt(self, running, pending, timeout)
+            allnt = list(running) + list(res.started)
+            ck = None
+            if res.completed is not None:
+                ck = next((nt.key for nt in allnt if nt.task is res.completed), "?")
+            calls.append((rk, pk, ck, [nt.key for nt in res.started]))
+            return res
+
+    class Rt(BasicRuntime):
+        def get_internal_adapter(self, workflow):
+            base = super().get_internal_adapter(workflow)
+            return Hybrid(base._queues)
+
+    rng = random.Random("contract/%s" % seed)
+    rec = E.Recorder()
+    spec, externals, opts = rng.choice(S.TEMPLATES_C02)(rng)
+    old_logger = rt.logger
+    log = _Log()
+    rt.logger = log
+
+    async def main():
+        wf = E.build_workflow(spec, rec)
+        wf._switch_runtime(Rt())
+        return await E.drive(wf, rec, rng, externals=externals, **dict(opts or {}))
+
+    try:
+        obs = vloop.run(main())
+    finally:
+        rt.logger = old_logger
+    c = sqlite3.connect(path)
+    journal = [k for (k,) in c.execute("SELECT task_key FROM workflow_journal WHERE run_id = ? ORDER BY seq_num", (RUNS[0],))]
+    c.close()
+    dbs.drop(path)
+    bad = []
+    live = []
+    handed = []
+    for n, (rk, pk, ck, sk) in enumerate(calls):
+        if sorted(rk) != sorted(live):
+            bad.append("call %d: running keys %s, but the tasks started and not yet handed over are %s" % (n, rk, live))
+        if sk != pk:
+            bad.append("call %d: started %s for pending %s" % (n, sk, pk))
+        allk = rk + pk
+        if len(set(allk)) != len(allk):
+            bad.append("call %d: two live tasks share a key: %s" % (n, allk))
+        live = list(allk)
+        if ck is not None:
+            if ck not in live:
+                bad.append("call %d: completed task %s is not one of the live tasks %s" % (n, ck, live))
+            else:
+                live.remove(ck)
+            handed.append(ck)
+    if journal != handed:
+        bad.append("journal %s differs from the keys handed to the control loop %s" % (journal, handed))
+    if log.warnings:
+        bad.append("%d non-determinism fallbacks in a first run" % log.warnings)
+    return dict(bad=bad, ncalls=len(calls), nhanded=len(handed), done=obs.done, stuck=obs.stuck,
+                template=[k for k in spec["steps"]], seed=seed,
+                timeouts=sum(1 for c in calls if c[2] is None), reused=len(handed) - len(set(handed)))
